@@ -411,6 +411,8 @@ func (p *ProjectRunner) RestartProcess(name string) error {
 			return err
 		}
 		verifYield("restart.afterStop", name)
+		// the new instance must not start while the old one is still terminating
+		proc.waitForCompletion()
 		time.Sleep(proc.getBackoff())
 	}
 
